@@ -19,7 +19,7 @@ pub static DEADLINE: Scenario = Scenario {
     run,
     quick_runs: 8000,
     thorough_runs: 300_000,
-    rule: "one run = caller and server Networks built by the real Builder::start with PRNG inbound/outbound defaults (each absent or 5..3000 ms), 8-30 sequential calls with a PRNG timeout header (absent, 0, below/between/above the defaults, u64::MAX, 2^64, non-numeric, negative, padded), PRNG handler duration and API path (Network::rpc, Peer::rpc, Peer as tower Service) on a constant-latency link (deciding configuration) or a jittered link (boundaries skipped); distinct = distinct order signature over per-call (header class, which deadline won, caller outcome, handler outcome); non-trivial = at least one deadline cut a handler or a caller off",
+    rule: "one run = caller and server Networks built by the real Builder::start with PRNG inbound/outbound defaults (each absent or 0..3000 ms), in a third of the runs a final phase where every stream the server grants (1-4) is held by a slow request while a further request with a short timeout header waits for a stream, 1-30 sequential calls with a PRNG timeout header (absent, 0, below/between/above the defaults, u64::MAX, 2^64, non-numeric, negative, padded), PRNG handler duration and API path (Network::rpc, Peer::rpc, Peer as tower Service) on a constant-latency link (deciding configuration) or a jittered link (boundaries skipped); distinct = distinct order signature over per-call (header class, which deadline won, caller outcome, handler outcome); non-trivial = at least one deadline cut a handler or a caller off",
     real: super::REAL_NET,
     stubbed: super::STUB_NET,
 };
@@ -60,13 +60,22 @@ fn run(input: RunInput) -> ScenFuture {
         let mut cfg_c = base_config(60_000, Some(5_000));
         cfg_c.outbound_request_timeout_ms = d_out;
         cfg_c.inbound_request_timeout_ms = w.flag("decoy_caller_inbound", 0.5).then_some(1);
+        // a small stream budget granted by the server: requests waiting for a stream are waiting
+        // all the same, and the caller-side deadline covers that wait too
+        let starved = w.flag("stream_starvation_phase", 0.35);
+        let budget = w.param("server_bidi_stream_budget", 1, 4) as u64;
+        // (a second server, so that the sequential calls above never wait for stream credit)
+        let mut cfg_s2 = cfg_s.clone();
+        cfg_s2.inbound_request_timeout_ms = d_in;
+        cfg_s2.quic.as_mut().unwrap().max_concurrent_bidi_streams = Some(budget);
         let plan: PlanFn = Arc::new(|req: &Request<Bytes>| Plan {
             delay: Duration::from_micros(req.headers().get("x-delay-us").and_then(|v| v.parse().ok()).unwrap_or(0)),
             response: Response::new(req.body().clone()).with_header("x-done", "1"),
         });
-        let svc = Svc::new(&w, plan);
+        let svc = Svc::new(&w, plan.clone());
         let h = svc.handle();
         let server = w.start_node(w.spec_exact(2, cfg_s), svc).unwrap();
+        let server2 = starved.then(|| w.start_node(w.spec_exact(3, cfg_s2), Svc::new(&w, plan.clone())).unwrap());
         // the defaults must take effect on every RPC made through a network, however it was built:
         // with or without a user-supplied outbound request layer
         let mut spec_c = w.spec_exact(1, cfg_c);
@@ -209,12 +218,46 @@ fn run(input: RunInput) -> ScenFuture {
                 }
             }
         }
+        // ---- the wait for a stream counts: with the server's stream budget taken by slow
+        //      requests, a further request with a short timeout header fails at its deadline ----
+        let occupancy_ms = d_out.unwrap_or(u64::MAX).min(d_in.unwrap_or(u64::MAX)).min(3_000);
+        if starved && occupancy_ms >= 200 && !w.violated() {
+            let server = server2.as_ref().unwrap();
+            if client.net.connect_with_peer_id(server.addr, server.peer_id).await.is_err() {
+                w.harness_error("setup connect to the second server failed");
+            }
+            let _ = probe(&w, &client, server.peer_id, 3_000, Duration::from_secs(5)).await;
+            sleep_us(4 * lat_max_us + 5_000).await;
+            let mut holders = Vec::new();
+            for k in 0..budget {
+                let (net, pid) = (client.net.clone(), server.peer_id);
+                let req = Request::new(Bytes::from(format!("hold{k}"))).with_header("x-nonce", (1_000 + k).to_string()).with_header("x-delay-us", "3000000");
+                holders.push(tokio::spawn(async move { net.rpc(pid, req).await.map(|r| r.status()).map_err(|e| format!("{e:#}")) }));
+            }
+            sleep_us(2 * lat_max_us + 2_000).await;
+            let t_ms = r.gen_range(1..=(occupancy_ms / 2 - 2 * lat_max_us / 1000 - 5).max(1));
+            let req = Request::new(Bytes::from_static(b"starved")).with_header("x-nonce", "2000").with_header("timeout", (t_ms * MS).to_string());
+            let t0 = w.now_ns();
+            let res = client.net.rpc(server.peer_id, req).await;
+            let took = w.now_ns() - t0;
+            let is_timeout = matches!(&res, Err(e) if format!("{e:#}").contains("Timeout expired"));
+            let key = format!("budget={budget} out={}", d_out.is_some());
+            if !is_timeout {
+                w.violate("caller-deadline-not-enforced-while-waiting-for-a-stream", key, format!("with all {budget} streams the server grants taken by slow requests, a request with timeout header {t_ms} ms returned {:?} after {} ms", res.as_ref().map(|r| r.status()).map_err(|e| format!("{e:#}")), took / MS));
+            } else if took < t_ms * MS || took > t_ms * MS + 2 * MS {
+                w.violate("caller-timeout-at-wrong-instant", key, format!("waiting for a stream: timeout header {t_ms} ms, timeout error after {} us", took / 1000));
+            }
+            w.probe("stream-starved-call");
+            for hnd in holders {
+                let _ = hnd.await;
+            }
+        }
         w.probe_n("cut-offs", cut);
         w.probe_n("skipped-near-boundary", skipped);
         if cut > 0 { w.mark_overlap(); }
         w.sample("calls", json!({"inbound_default_ms": d_in, "outbound_default_ms": d_out, "latency_us": [lat_min_us, lat_max_us], "calls": samples}));
         let out = w.finish();
-        drop((client, server));
+        drop((client, server, server2));
         out
     })
 }
